@@ -120,7 +120,8 @@ type Challenge struct {
 // The following checks are performed:
 //   - The metadataURL must use HTTPS or be a local address.
 //   - The resource field of the resulting metadata must match the resourceURL.
-//   - The authorization_servers field of the resulting metadata is checked for dangerous URL schemes.
+//   - The authorization_servers field of the resulting metadata is checked for dangerous URL schemes,
+//     as are its other URL fields (jwks_uri, resource_documentation, resource_policy_uri, resource_tos_uri).
 func GetProtectedResourceMetadata(ctx context.Context, metadataURL, resourceURL string, c *http.Client) (_ *ProtectedResourceMetadata, err error) {
 	defer util.Wrapf(&err, "GetProtectedResourceMetadata(%q)", metadataURL)
 	// Only allow HTTP for local addresses (testing or development purposes).
@@ -142,6 +143,18 @@ func GetProtectedResourceMetadata(ctx context.Context, metadataURL, resourceURL 
 		}
 		if err := checkHTTPSOrLoopback(u); err != nil {
 			return nil, fmt.Errorf("authorization_servers[%d]: %v", i, err)
+		}
+	}
+	// The other URL members get the same scheme check (the client does not
+	// call them, so HTTPS is not required of them).
+	for _, u := range []struct{ name, value string }{
+		{"jwks_uri", prm.JWKSURI},
+		{"resource_documentation", prm.ResourceDocumentation},
+		{"resource_policy_uri", prm.ResourcePolicyURI},
+		{"resource_tos_uri", prm.ResourceTOSURI},
+	} {
+		if err := checkURLScheme(u.value); err != nil {
+			return nil, fmt.Errorf("%s: %v", u.name, err)
 		}
 	}
 	return prm, nil
